@@ -237,6 +237,11 @@ func (f *FuncVC) applyContract(st *State, x *ssa.Call, con *Contract, args []*Va
 		f.sc.add("; callee ensures " + c.Text)
 		f.assume(st, post.assuming().evalBool(c.Expr))
 	}
+	for _, c := range con.EnsuresAssumed {
+		f.sc.add("; callee ensures (ASSUMED, not checked in the callee) " + c.Text)
+		f.usedAssumed["postcondition of "+con.Name+" that is NOT checked in its body (ensures_assumed): "+c.Text] = true
+		f.assume(st, post.assuming().evalBool(c.Expr))
+	}
 	if con.Assumed && f.pure == 0 {
 		// vacuity guard: an assumed contract must not make the path infeasible
 		o := &Obligation{Name: fmt.Sprintf("%s#vacuity:after %s", f.name(), src), Kind: "vacuity", Func: f.name(), Prefix: len(f.sc.cmds), PC: st.pc, Goal: "false", Expect: "sat", fv: f}
